@@ -110,7 +110,19 @@ fn acts(n: &Node, thorough: bool, jumps: &[u64]) -> Vec<Action> {
     if m.block_txs.len() < 2 {
         for id in m.coins.keys().filter(|id| m.stake_txs_seen.contains(&id.txhash)) {
             if let Some(t) = spend(n, *id, mels.iter().find(|c| c.0.txhash != id.txhash)) {
-                v.push(Action::Batch { label: format!("spend-output{}-of-stake-tx({})", id.index, hex::encode(&id.txhash.0 .0[..2])), txs: vec![t], expect_ok: false });
+                v.push(Action::Batch { label: format!("spend-output{}-of-stake-tx({})", id.index, hex::encode(&id.txhash.0 .0[..2])), txs: vec![t.clone()], expect_ok: false });
+                // the same spend with the inputs in the other order (an unlocked coin under the same covenant listed first)
+                if t.inputs.len() == 2 {
+                    let mut t2 = t.clone();
+                    t2.inputs.reverse();
+                    v.push(Action::Batch { label: format!("spend-output{}-of-stake-tx({})-listed-last", id.index, hex::encode(&id.txhash.0 .0[..2])), txs: vec![t2], expect_ok: false });
+                } else if let Some(extra) = mels.iter().find(|c| c.0 != *id && c.0.txhash != id.txhash) {
+                    // a MEL output of the stake transaction: put another, unlocked MEL coin in front of it
+                    let mut t2 = t.clone();
+                    t2.inputs.insert(0, extra.0);
+                    t2.outputs.push(out_t(extra.1.coin_data.value.0, Denom::Mel));
+                    v.push(Action::Batch { label: format!("spend-output{}-of-stake-tx({})-listed-last", id.index, hex::encode(&id.txhash.0 .0[..2])), txs: vec![t2], expect_ok: false });
+                }
             }
         }
     }
